@@ -24,7 +24,7 @@ func init() {
 			"the bounded space is enumerated completely (exhaustive:true refers to it); longer lists are sampled",
 		},
 		Shards:   shards(8, 16),
-		Timeout:  timeouts(5*time.Minute, 20*time.Minute),
+		Timeout:  timeouts(12*time.Minute, 90*time.Minute),
 		MinEvals: 16105 * 4,
 		Required: []string{"validpath_accept", "validpath_reject", "walkname_accept", "walkname_reject_climb", "createname_accept", "createname_reject", "normalize_checked", "towalk_checked", "exhaustive_lists"},
 		Run:      runC16,
